@@ -13,6 +13,8 @@ type tp_fix = {
   mutable f_n0 : int;                         (* clock at tp_start *)
   mutable f_snap : (z * z) list list * (z * z) list list;   (* oracle: the referenced periods' observed segments at the last round that recomputed *)
   f_own_at : (int, bool) Hashtbl.t;           (* oracle: what the period's own written ranges say at a probe (memo) *)
+  mutable f_hole : (int * int) option;        (* oracle: after a Start() on a restored state whose valid_end lies beyond everything Start()
+                                                 produced: (end of what was produced, restored valid_end] - finding restart-keeps-valid-end *)
 }
 
 let tp_tab : (string, tp_fix) Hashtbl.t = Hashtbl.create 16
@@ -43,7 +45,7 @@ let tp_emit_state a =
 
 let tp_new_fix a = { f_st = tp_empty; f_prefer = (num a "prefer" 1 <> 0); f_inc = split_c (str a "inc" "-") ',';
                      f_exc = split_c (str a "exc" "-") ','; f_own = []; f_ranges = [];
-                     f_active = false; f_n0 = 0; f_snap = ([], []); f_own_at = Hashtbl.create 64 }
+                     f_active = false; f_n0 = 0; f_snap = ([], []); f_own_at = Hashtbl.create 64; f_hole = None }
 
 (* ---- day definitions / time ranges as printed by the generator (ast=...) ----
    spec:  d.Y.M.D | m.MON.N (MON=-1: "day N") | w.WDAY.N.MON (N=0: plain weekday, MON=-1: no month)
@@ -124,8 +126,19 @@ let op_tp_start a =
   let excs = List.map (fun g -> g.f_st.tp_segs) (tp_existing f.f_exc) in
   let nowz = z_of_int !now in
   f.f_active <- true;
-  f.f_st <- (if f.f_st = tp_empty then tp_roll_start (tp_upd_fun f) f.f_prefer ((nowz, incs), excs)
-             else tp_update_region true (tp_upd_fun f) f.f_prefer incs excs nowz (z_of_int (!now + 86400)) true f.f_st);
+  (* the state Start() finds is the empty one or the one restored from the state file (tp_reload) *)
+  f.f_st <- tp_roll_start_on tp_src_start_resets (tp_upd_fun f) f.f_prefer ((nowz, incs), excs) f.f_st;
+  tp_emit_state a
+
+(* tp_reload: restart with an edited configuration - a new object (new prefer / includes / excludes, no ranges yet, not
+   started, last in creation order) that carries the old object's state attributes *)
+let op_tp_reload a =
+  let old = tp_get a in
+  let name = str a "name" "" in
+  let f = tp_new_fix a in
+  f.f_st <- old.f_st;
+  Hashtbl.replace tp_tab name f;
+  tp_order := List.filter (fun n -> n <> name) !tp_order @ [name];
   tp_emit_state a
 
 let op_tp_timer _ =
@@ -162,6 +175,7 @@ let oracle_c08_case script trace =
   let nmax = List.fold_left (fun m line -> match parse_line line with
       | Some ("now", a) -> max m (tnum (List.hd a.pos)) | _ -> m) 0 script in
   let fail m = if !err = None then err := Some m in
+  let hole_hit = ref None in    (* the same for the known class restart-keeps-valid-end *)
   let stale = ref None in       (* a hit of the known staleness class does not stop the judgement of the rest of the case *)
   let next li k =
     match !tr with
@@ -201,6 +215,18 @@ let oracle_c08_case script trace =
         | Some r -> fail (Printf.sprintf "step=%d op=tp_parse res=%s expected=%s" li r want)
         | None -> fail (Printf.sprintf "step=%d unexpected-line %s" li l))
     | Some ("tp_new", a) -> Hashtbl.replace fx (str a "name" "") (tp_new_fix a); order := !order @ [str a "name" ""]
+    | Some ("tp_reload", a) ->
+      (* restart with an edited configuration: the new object (new prefer / includes / excludes; its ranges follow) carries the
+         state attributes the implementation shows after ConfigObject::RestoreObject - that is the state Start() will find *)
+      let name = str a "name" "" in
+      next li (fun l ->
+        match parse_state_line l with
+        | Some (n, post, _) when n = name ->
+          let f = tp_new_fix a in
+          f.f_st <- post;
+          Hashtbl.replace fx name f;
+          order := List.filter (fun n -> n <> name) !order @ [name]
+        | _ -> fail (Printf.sprintf "step=%d unexpected-line %s" li l))
     | Some ("tp_timer", _) ->
       (* one expiry of the update timer: every started period, in creation order, is judged by the statement of
          C08_rolling_updates at every probe from one hour before the round (not before its start) up to its valid_end *)
@@ -241,8 +267,18 @@ let oracle_c08_case script trace =
                   let (si, sx) = f.f_snap in
                   let answers = List.map2 (fun t o ->
                       ((z_of_int t, (o, own_at t)), (tp_inside_any si (z_of_int t), tp_inside_any sx (z_of_int t)))) !pts ins in
-                  match tp_roll_answers_ok f.f_prefer (z_of_int lo) (tp_ve_num post) answers with
-                  | None -> None
+                  (* "outside" between the end of what a Start() on restored state produced and the restored valid_end is the
+                     known class restart-keeps-valid-end: judged apart, everything else as before *)
+                  let in_hole ((t, (o, _)), _) = match f.f_hole with
+                    | Some (hl, hh) -> let t = int_of_z t in t >= hl && t <= hh && not o | None -> false in
+                  let (holed, judged) = List.partition in_hole answers in
+                  match tp_roll_answers_ok f.f_prefer (z_of_int lo) (tp_ve_num post) judged with
+                  | None ->
+                    (match tp_roll_answers_ok f.f_prefer (z_of_int lo) (tp_ve_num post) holed with
+                     | Some t when !hole_hit = None ->
+                       hole_hit := Some (Printf.sprintf "step=%d op=tp_timer name=%s now=%d violates-C08 restart-keeps-valid-end t=%s: reported outside although the definition says inside, between the end of what Start() computed and the valid_end restored from the state file" li name !clock (zs t))
+                     | _ -> ());
+                    None
                   | Some t -> Some (Printf.sprintf "rolling t=%s (IsInside differs from the statement inside the valid window)" (zs t))
                 end in
               f.f_st <- post;
@@ -283,6 +319,9 @@ let oracle_c08_case script trace =
               | Some i, Some x -> Some (tp_region_spec g.f_prefer (own_of g) i x)
               | _ -> None in
           match truth 0 f with
+          | Some t when t <> want && (not want) && (match f.f_hole with Some (hl, hh) -> !clock >= hl && !clock <= hh | None -> false) ->
+            if !hole_hit = None then
+              hole_hit := Some (Printf.sprintf "step=%d op=now name=%s now=%d violates-C08 restart-keeps-valid-end: is_inside at the clock is false although the definition says inside, between the end of what Start() computed and the valid_end restored from the state file" li (str a "name" "") !clock)
           | Some t when t <> want ->
             let (si, sx) = f.f_snap in
             let snap = tp_region_spec f.f_prefer (own_of f) (tp_inside_any si tz) (tp_inside_any sx tz) in
@@ -315,7 +354,10 @@ let oracle_c08_case script trace =
             | _ ->
               let clear = opn = "tp_start" || num a "clear" 1 <> 0 in
               if opn = "tp_start" then begin
-                f.f_active <- true; f.f_n0 <- !clock; f.f_snap <- (incs, excs)
+                f.f_active <- true; f.f_n0 <- !clock; f.f_snap <- (incs, excs);
+                (* segments are half-open: the end of the last one is the first instant nothing was produced for; [now, now + 24 h] is Start()'s own region *)
+                let produced = List.fold_left (fun m (_, e) -> max m (int_of_z e)) (!clock + 86400 + 1) post.tp_segs in
+                f.f_hole <- (if int_of_z (tp_ve_num pre) >= produced && pre.tp_ve <> None then Some (produced, int_of_z (tp_ve_num pre)) else None)
               end;
               if f.f_ranges = [] then
                 (if tp_step_ok tp_src_merge_always probes (TpOpUpdate (f.f_own, f.f_prefer, incs, excs, zi "b", zi "e", clear)) pre post ins
@@ -344,7 +386,7 @@ let oracle_c08_case script trace =
            | Some what -> fail (Printf.sprintf "step=%d op=%s name=%s violates-C08 %s" li opn name what))
         | _ -> fail (Printf.sprintf "step=%d unexpected-line %s" li l))
     | _ -> ()) script;
-  (match !err with Some _ -> !err | None -> !stale)
+  (match !err with Some _ -> !err | None -> (match !stale with Some _ -> !stale | None -> !hole_hit))
 
 let () =
   register_op "tp_pts" (fun a -> tp_pts := List.map tnum (split_c (List.hd a.pos) ','));
@@ -363,6 +405,7 @@ let () =
     emit ("tp_parse res=" ^ (if tp_validate a then "ok" else "rejected")));
   register_op "tp_new" (fun a -> Hashtbl.replace tp_tab (str a "name" "") (tp_new_fix a); tp_order := !tp_order @ [str a "name" ""]);
   register_op "tp_start" op_tp_start;
+  register_op "tp_reload" op_tp_reload;
   register_op "tp_timer" op_tp_timer;
   register_op "tp_own" (fun a -> (tp_get a).f_own <- List.map parse_seg (split_c (str a "segs" "-") ','));
   register_op "tp_range" (fun a -> tp_apply_range (tp_get a) a);
